@@ -28,6 +28,21 @@ CHECKS = {
     'C18': dict(engine='loglens', technique='TLA+ spec IggyLog (Accepted/KeepFresh) + TLC model checking of the dedup instance + trace validation',
                 text='Sends with repeating ids (within a batch, across batches, across persist boundaries and restarts) with de-duplication on; the log the server serves must be the specification log in which only first occurrences are kept and no offset is consumed by a dropped message.',
                 ref='3.1, 7/C18'),
+    'C05': dict(engine='catlens', technique='TLA+ spec IggyCatalogue (Restart = identity on the catalogue relations) + TLC model checking + TLC-generated command scripts over TCP and HTTP + TLC trace validation',
+                text='Every executed command sequence (server- and client-chosen ids, by-id and by-name addressing, deletes and re-creations) is followed by one or more in-process restarts; the normalised answers of every get/list call, the per-partition message counts and the directory tree after the restart must equal the specification relations, which a restart leaves unchanged.',
+                ref='3.4, 7/C05'),
+    'C06': dict(engine='catlens', technique='TLA+ spec IggyCatalogue (sequential map over flat relations, WellFormed, OneStreamPerStep) + TLC model checking + trace validation of valid and invalid command sequences',
+                text='The specification decides for every command whether it must be refused (duplicate names/ids, unknown targets, rename onto taken names) and what it changes; after every step the sets the server reports (streams, topics, groups, message counts, users, memberships, directories, by-id = by-name lookups) must equal the relations. A panic or closed connection is a violation.',
+                ref='3.4, 7/C06'),
+    'C15': dict(engine='topiclens', technique='TLA+ spec IggyTopic (MustRefuse gate, OldestOK, LimitAllowed) + TLC model checking + trace validation with measured sizes',
+                text='Sends at, below and above the limit with deletion of oldest segments on and off, limit updates (also below one segment) and real maintenance passes; each send outcome is compared with the gate evaluated on the size the server reports, each disappearing segment with the clean-up rule.',
+                ref='3.3, 7/C15'),
+    'C16': dict(engine='topiclens', technique='TLA+ spec IggyTopic (retained counts per partition, sums) + TLC trace validation of the counter hierarchy against polls, projection and bytes on disk',
+                text='After every step partition/topic/stream/stats counts and sizes are compared: partition count = retained messages of the specification, topic = sum of partitions, stream = sum of topics (a sibling topic and stream receive data too), stats = sum of streams and exact entity/segment counts (against the internal projection), sizes = bytes on disk at quiescent points; also across purge, partition deletion, maintenance and restart.',
+                ref='3.3, 7/C16'),
+    'C17': dict(engine='topiclens', technique='TLA+ spec IggyTopic (MayLand relation, keyMap, rotation window) + TLC model checking + trace validation',
+                text='Sends by partition id (valid and invalid), by key (seeded lengths 1..255) and balanced, interleaved with partition additions/removals and restarts; the landing partition is read off the full read of every partition and judged relationally: named partition or refusal, fixed partition per key and partition count, P consecutive balanced sends on P distinct partitions, exactly one partition per send.',
+                ref='3.3, 7/C17'),
 }
 
 def main():
@@ -43,7 +58,13 @@ def main():
                    add_only=True),
         engines=[dict(name='loglens', path='lib/loglens.py + harness/src/log_lens.rs + specs/IggyLog.tla, MC_IggyLog.tla, Trace_IggyLog.tla',
                       serves_properties=[p for p, c in CHECKS.items() if c['engine'] == 'loglens'],
-                      kind_free_text='explicit TLA+ specification, TLC model checking, TLC-generated scripts executed on the real server, TLC trace validation')],
+                      kind_free_text='explicit TLA+ specification, TLC model checking, TLC-generated scripts executed on the real server, TLC trace validation'),
+                 dict(name='topiclens', path='lib/topiclens.py + harness/src/topic_lens.rs + specs/IggyTopic.tla, MC_IggyTopic.tla, Trace_IggyTopic.tla',
+                      serves_properties=[p for p, c in CHECKS.items() if c['engine'] == 'topiclens'],
+                      kind_free_text='same technique, topic level (partition selection, size limit, counters)'),
+                 dict(name='catlens', path='lib/catlens.py + harness/src/cat_lens.rs + specs/IggyCatalogue.tla, MC_IggyCatalogue.tla, Trace_IggyCatalogue.tla',
+                      serves_properties=[p for p, c in CHECKS.items() if c['engine'] == 'catlens'],
+                      kind_free_text='same technique, catalogue level over TCP and HTTP with restarts')],
         checks=[],
         notes='See DESIGN.md. Exit codes: 0 held, 1 + VIOLATION line, 2 tool error. known-findings.json lists fixed and open findings.',
         not_applicable=[],
